@@ -595,6 +595,15 @@ def r03_10(ctx, prog, crate):
     r15_1(Renamed(ctx, "R03.10"), prog, crate)
 
 
+def run_extra(ctx):
+    """R03.11 (= R15.7) sample_count, sample_size and threads are in force as written: every option written in an
+    attribute is emitted into the BenchOptions field of the same name with the value as written (`threads = false` is
+    Some([1]), not an unset field that inherits an enclosing group's thread counts) - on the macro expansions (engine E3)."""
+    from . import C15
+    from .common import Renamed
+    C15.run_extra(Renamed(ctx, "R03.11"))
+
+
 def run(ctx, prog, crate):
     r03_10(ctx, prog, crate)
     r03_8(ctx, prog, crate)
